@@ -851,7 +851,7 @@ def run(ctx):
         chk.process(text, sel, origin)
     # big scopes: multi-letter names and keyword collisions
     brng = ctx.sub_rng('big')
-    sizes = ctx.n([60, 230, 520], [60, 130, 230, 520, 900, 1500, 3000])
+    sizes = ctx.n([60, 230, 520], [60, 130, 230, 520, 900])   # larger scopes make the List-based model quadratic-to-cubic (30+ min)
     for n in sizes:
         text = big_scope(brng, n)
         sel = [PCfg('minify', False, False), PCfg('minify', True, True, True), PCfg('indent', True, False)]
